@@ -395,8 +395,15 @@ impl LogState {
             self.status = String::new();
         }
         if !line_head.is_empty() {
-            // partial line never got terminated
-            print!("{}", String::from_utf8_lossy(&line_head));
+            // partial line never got terminated: show it as a line of its own
+            // (as the original does), under this target's name if something
+            // else was shown since this target's last line.
+            if interrupted != 0 {
+                let d = logs::reduce_depth();
+                logs::meta("resumed", t.as_str(), None);
+                logs::set_depth(d);
+            }
+            logs::write(&clean_line(&String::from_utf8_lossy(&line_head)));
         }
         if t.as_str() != "-" {
             let last = self.depth.pop();
